@@ -320,3 +320,107 @@ Proof.
   - replace (N.eqb ch_at ch_colon) with false by reflexivity. rewrite split_colon_none; auto.
   - rewrite split_colon_none; auto.
 Qed.
+
+(* ------------------------------------------------------------------ *)
+(* the fuel of the regex model never runs out                          *)
+(* ------------------------------------------------------------------ *)
+Lemma cands_shorter first r y : In y (cands_inc first r) -> length y < length r.
+Proof.
+  revert first. induction r as [|c r IH]; intros first H; cbn in H; [contradiction|].
+  destruct (N.eqb c ch_nl); [contradiction|].
+  apply in_app_or in H as [H|H].
+  - destruct (N.eqb c ch_rbrace && negb first); [|contradiction].
+    destruct H as [<-|[]]. cbn. lia.
+  - specialize (IH _ H). cbn. lia.
+Qed.
+
+Lemma first_some_ext {A B} (f g : A -> option B) l :
+  (forall x, In x l -> f x = g x) -> first_some f l = first_some g l.
+Proof.
+  induction l as [|a l IH]; intro H; [reflexivity|]. cbn.
+  rewrite (H a (or_introl eq_refl)). destruct (g a); auto. apply IH. intros x Hx. apply H. right. exact Hx.
+Qed.
+
+Lemma m_rest_fuel : forall f l, length l < f -> m_rest f l = m_rest (Datatypes.S f) l.
+Proof.
+  induction f as [|f IH]; intros l H; [lia|].
+  destruct l as [|c r]; [reflexivity|].
+  change (m_rest (Datatypes.S f) (c :: r)) with
+    (if N.eqb c ch_lbrace then
+       match first_some (m_rest f) (rev (cands_inc true r)) with Some z => Some z | None => m_tail (c :: r) end
+     else m_tail (c :: r)).
+  change (m_rest (Datatypes.S (Datatypes.S f)) (c :: r)) with
+    (if N.eqb c ch_lbrace then
+       match first_some (m_rest (Datatypes.S f)) (rev (cands_inc true r)) with Some z => Some z | None => m_tail (c :: r) end
+     else m_tail (c :: r)).
+  destruct (N.eqb c ch_lbrace); [|reflexivity].
+  rewrite (first_some_ext (m_rest f) (m_rest (Datatypes.S f))); [reflexivity|].
+  intros y Hy. apply IH. apply in_rev in Hy. apply cands_shorter in Hy. cbn in H. lia.
+Qed.
+
+Lemma m_rest_fuel_ge l : forall extra,
+  m_rest (Datatypes.S (length l) + extra) l = m_rest (Datatypes.S (length l)) l.
+Proof.
+  induction extra as [|e IH]; [rewrite Nat.add_0_r; reflexivity|].
+  rewrite Nat.add_succ_r. rewrite <- m_rest_fuel by lia. exact IH.
+Qed.
+
+(* a match always consumes at least one character *)
+Lemma drop_nondot_len r : length (drop_nondot r) <= length r.
+Proof. induction r as [|c r IH]; cbn; auto. destruct (N.eqb c ch_dot); cbn; lia. Qed.
+
+Lemma m_tail_shorter l rest : m_tail l = Some rest -> length rest < length l.
+Proof.
+  destruct l as [|c r]; cbn; [discriminate|]. destruct (N.eqb c ch_dot); [discriminate|].
+  intro H. inversion H. pose proof (drop_nondot_len r). lia.
+Qed.
+
+Lemma first_some_in {A B} (f : A -> option B) l b :
+  first_some f l = Some b -> exists a, In a l /\ f a = Some b.
+Proof.
+  induction l as [|a l IH]; cbn; [discriminate|]. destruct (f a) eqn:E.
+  - intro H. inversion H; subst. exists a. auto.
+  - intro H. destruct (IH H) as [a' [Ha Hf]]. exists a'. auto.
+Qed.
+
+Lemma m_rest_shorter : forall f l rest, m_rest f l = Some rest -> length rest < length l.
+Proof.
+  induction f as [|f IH]; intros l rest H; [discriminate|].
+  destruct l as [|c r]; [discriminate|].
+  change (m_rest (Datatypes.S f) (c :: r)) with
+    (if N.eqb c ch_lbrace then
+       match first_some (m_rest f) (rev (cands_inc true r)) with Some z => Some z | None => m_tail (c :: r) end
+     else m_tail (c :: r)) in H.
+  destruct (N.eqb c ch_lbrace); [|apply m_tail_shorter; exact H].
+  destruct (first_some (m_rest f) (rev (cands_inc true r))) as [z|] eqn:E; [|apply m_tail_shorter; exact H].
+  inversion H; subst. apply first_some_in in E as [y [Hy Hz]].
+  apply in_rev in Hy. apply cands_shorter in Hy. specialize (IH _ _ Hz). cbn. lia.
+Qed.
+
+Lemma split_loop_fuel : forall f l, length l < f -> split_loop f l = split_loop (Datatypes.S f) l.
+Proof.
+  induction f as [|f IH]; intros l H; [lia|].
+  change (split_loop (Datatypes.S f) l) with
+    (match splitp_match l with
+     | None => []
+     | Some rest => firstn (length l - length rest) l ::
+                    match rest with [] => [] | _ :: rest' => split_loop f rest' end
+     end).
+  change (split_loop (Datatypes.S (Datatypes.S f)) l) with
+    (match splitp_match l with
+     | None => []
+     | Some rest => firstn (length l - length rest) l ::
+                    match rest with [] => [] | _ :: rest' => split_loop (Datatypes.S f) rest' end
+     end).
+  destruct (splitp_match l) as [rest|] eqn:E; [|reflexivity].
+  f_equal. destruct rest as [|c rest']; [reflexivity|].
+  apply IH. unfold splitp_match in E. apply m_rest_shorter in E. cbn in E. lia.
+Qed.
+
+(* more fuel than the length of the string changes nothing *)
+Lemma split_fuel_sufficient_l s extra :
+  split_loop (Datatypes.S (length s) + extra) s = split s.
+Proof.
+  unfold split. induction extra as [|e IH]; [rewrite Nat.add_0_r; reflexivity|].
+  rewrite Nat.add_succ_r. rewrite <- split_loop_fuel by lia. exact IH.
+Qed.
